@@ -202,7 +202,7 @@ Lemma flags_kept ds s : nw_field F_flags ds = true ->
   match run_dec ds s with Run s' => getN (M F_flags) (dp s') = getN (M F_flags) (dp s) | _ => True end.
 Proof.
   intros H. pose proof (field_kept F_flags ds s H) as K.
-  destruct (run_dec ds s); [|exact I|exact I]. unfold keeps, same, Rfield in K. unfold getN. cbn. rewrite K. reflexivity.
+  destruct (run_dec ds s); [|exact I|exact I]. unfold keeps, Rfield_s, Rfield in K. unfold getN. cbn. rewrite K. reflexivity.
 Qed.
 
 Lemma will_kept' ds s :
